@@ -10,7 +10,7 @@ package writer
 //verif:stub-always github.com/siglens/siglens/pkg/segment/writer.GetNewPLE verifC15GetNewPLE
 //verif:stub-always github.com/siglens/siglens/pkg/es/writer.ProcessIndexRequestPle verifC15Store
 //verif:stub-always github.com/siglens/siglens/pkg/usageStats.UpdateStats verifC15NoStats
-//verif:bound bulk bodies of 1..3 (quick) / 1..4 (thorough) action lines, each followed by a document line; per item: action in {index, create, update, delete}, index name in {"i","j"}, document normal-sized or larger than the 63000-byte limit, JSON accepted or rejected by the parser, store call per index succeeding or failing
+//verif:bound bulk bodies of 1..3 (quick) / 1..4 (thorough) action lines, each followed by a document line (the last action's document line may be missing); per item: action in {index, create, update, delete}, index name in {"i","j"}, document normal-sized or larger than the 63000-byte limit, JSON accepted or rejected by the parser, store call per index succeeding or failing
 //verif:outside JSON validity itself (jsonparser), the .kibana internal path, Splunk/Loki handlers, what the store does with the batch (C01)
 //verif:assume ExtractIndexAndValidateAction, writer.GetNewPLE and ProcessIndexRequestPle are contract stubs: the action/index of each line, whether the document parses, and whether the store accepts each per-index batch are free; every successful GetNewPLE returns a distinct event
 
@@ -90,6 +90,7 @@ func VerifC15BulkAck() {
 		big[n] = 'x'
 	}
 	oversize := make([]bool, k)
+	missingDoc := false
 	var body []byte
 	for i := 0; i < k; i++ {
 		verifC15Actions[i] = []int{INDEX, UPDATE, DELETE}[zz.Choice(zz.Name("action", i), 3)]
@@ -101,7 +102,12 @@ func VerifC15BulkAck() {
 		oversize[i] = zz.Choice(zz.Name("oversize", i), 2) == 1
 		body = append(body, []byte(`{"a":{}}`)...)
 		body = append(body, '\n')
-		if verifC15Actions[i] != DELETE {
+		// the body may end right after the last action line (no document line)
+		truncated := i == k-1 && verifC15Actions[i] != DELETE && zz.Choice("lastDocMissing", 2) == 1
+		if truncated {
+			missingDoc = true
+		}
+		if verifC15Actions[i] != DELETE && !truncated {
 			if oversize[i] {
 				body = append(body, big...)
 			} else {
@@ -129,7 +135,13 @@ func VerifC15BulkAck() {
 			}
 		}
 		isWrite := verifC15Actions[i] == INDEX || verifC15Actions[i] == CREATE
-		handed := isWrite && !oversize[i] && verifC15ParseOK[i]
+		noDoc := missingDoc && i == k-1
+		handed := isWrite && !oversize[i] && verifC15ParseOK[i] && !noDoc
+		if noDoc {
+			zz.Assert(!created, "bulk/action-without-a-document-is-not-reported-created")
+			anyFailed = true
+			continue
+		}
 		// how often was this item's event stored?
 		stored := 0
 		for n, p := range verifC15PLEs {
